@@ -3,7 +3,7 @@
    JSON is an oracle: [encode]/[decode] are universally quantified and constrained by
    the named laws [roundtrip], [prefix_safe], [empty_invalid]. *)
 From Coq Require Import ZArith List Bool.
-From V Require Import Bytes StrGo Route RouteProofs C18Users C18Tables C18CrashFs C18TableProofs C18CrashProofs C18EndToEnd.
+From V Require Import Bytes StrGo Route RouteProofs C18Users C18Tables C18CrashFs C18TableProofs C18CrashProofs C18EndToEnd C18CanonStable.
 Import ListNotations.
 Open Scope Z_scope.
 
@@ -55,6 +55,11 @@ Theorem C18_routes_flush_restart_exact : forall url_ok ops sd,
   m_tab (fst (fst (mrun (route_ops url_ok) sd ops))).
 Proof. exact routes_flush_restart_exact. Qed.
 Print Assumptions C18_routes_flush_restart_exact.
+
+(* the guard holds for every pattern without white space (space, \t \n \v \f \r) *)
+Theorem C18_no_space_canon_stable : forall p, no_space p = true -> canon_stable p = true.
+Proof. exact no_space_canon_stable. Qed.
+Print Assumptions C18_no_space_canon_stable.
 
 Theorem C18_route_reload_unstable_refuted :
   let R := route_ops (fun _ => true) in
